@@ -7,9 +7,9 @@ from props import c03, c16_worker
 
 OBLIGATIONS = dict(
     prop_file='Properties/C16.v',
-    glue=['Glue/CoreGlue.v', 'Glue/Pin_p_dist.v', 'Glue/Pin_o_euclid_collectives.v', 'Glue/Pin_o_cosine_collectives.v', 'Glue/Pin_o_kmeans_collectives.v'],
+    glue=['Glue/CoreGlue.v', 'Glue/Pin_p_dist.v', 'Glue/Pin_o_euclid_collectives.v', 'Glue/Pin_o_cosine_collectives.v', 'Glue/Pin_o_kmeans_collectives.v'] + ['Glue/Pin_fp_C16.v'],
     extra=['Model/CoreCheck.vo', 'Model/Dist.vo'],
-    gen_items=['o_euclid_collectives', 'o_cosine_collectives', 'o_kmeans_collectives', 'p_dist', 'k_ema_inplace'],
+    gen_items=['o_euclid_collectives', 'o_cosine_collectives', 'o_kmeans_collectives', 'p_dist', 'k_ema_inplace', 'fp_C16'],
 )
 ASSUMPTIONS = [
     'PARTIAL: collectives are modelled as sums (all_reduce) and copies (broadcast); real scheduling, process-group failures, NCCL / GPU and the ordering of the non-blocking broadcasts are runtime behaviour the model cannot exhibit - they are only exercised by the gloo runs',
